@@ -894,6 +894,13 @@ pub fn registry_behaviour(r: &mut Rng, t: &mut Trace, max_pairs: usize, index: u
             t.run(&mut w, json!({"op": "q_native_decimals", "denom": d}));
         }
     }
+    // kind confusion at the key level: a native denom whose bytes equal a registered token's canonical address
+    for tk in w.tokens.clone().iter() {
+        for other in assets.iter().take(6) {
+            t.run(&mut w, json!({"op": "q_fac_pair", "infos": [{"native_canon_of": tk}, other]}));
+            t.run(&mut w, json!({"op": "q_fac_pair", "infos": [other, {"native_canon_of": tk}]}));
+        }
+    }
     // final sweep: all limits of interest, every registered denom re-registered, all collision candidates looked up
     for lim in [nul(), json!(1), json!(2), json!(3), json!(7), json!(10), json!(11), json!(29), json!(30), json!(31), json!(40)] {
         t.run(&mut w, json!({"op": "q_fac_walk", "limit": lim}));
@@ -943,6 +950,20 @@ pub fn withdraw_behaviour(r: &mut Rng, t: &mut Trace) {
                 json!({"op": "cw20_transfer", "token": id_of(&info), "caller": "carol", "dest": paddr, "amount": st(amount)})
             };
             t.run(&mut w, op);
+        }
+        // both reserves inflated at once (up to 2^120 each): the reserve product leaves every range the swap
+        // arithmetic can handle, withdrawals must keep working
+        if r.chance(1, 2) {
+            for info in [a0.clone(), a1.clone()] {
+                let nb = r.range(88, 120) as u32;
+                let amount = r.bits128(nb);
+                let op = if is_native(&info) {
+                    json!({"op": "bank_send", "caller": "mallory", "dest": paddr, "coins": [[id_of(&info), st(amount)]]})
+                } else {
+                    json!({"op": "cw20_transfer", "token": id_of(&info), "caller": "mallory", "dest": paddr, "amount": st(amount)})
+                };
+                t.run(&mut w, op);
+            }
         }
         for _ in 0..r.below(3) {
             let (offer, x) = if r.chance(1, 2) { (a0.clone(), balance(&w, &a0, &paddr)) } else { (a1.clone(), balance(&w, &a1, &paddr)) };
